@@ -112,19 +112,10 @@ func (n *NameTrie[V]) Delete() {
 
 // DeleteIf deletes the node and its ancestors if they are empty.
 // Whether empty or not is defined by a given function.
+// A node that still has children is kept, so that its subtree stays reachable.
 func (n *NameTrie[V]) DeleteIf(pred func(V) bool) {
-	if !pred(n.val) {
-		return
-	}
-	if n.par != nil {
-		n.chd = nil
-		delete(n.par.chd, n.key)
-		if len(n.par.chd) == 0 {
-			n.par.DeleteIf(pred)
-		}
-	} else {
-		// Root node cannot be deleted.
-		n.chd = map[string]*NameTrie[V]{}
+	for cur := n; cur.par != nil && len(cur.chd) == 0 && pred(cur.val); cur = cur.par {
+		delete(cur.par.chd, cur.key)
 	}
 }
 
